@@ -125,6 +125,20 @@ class Session:
             e["exc"] = type(ex).__name__
         self.add(e)
 
+    def validate_cfg(self, tests):
+        """tests: list of (test name, entries); entries in written order: {"kind": "spec"/"bbox", "key", "tokens"}"""
+        from ioos_qc.config_creator.config_creator import QcVariableConfig
+        cfg = {"variable": "v", "bbox": [0, 0, 1, 1], "start_time": "2020-01-01", "end_time": "2020-02-01", "tests": {}}
+        for name, entries in tests:
+            cfg["tests"][name] = {en["key"]: ([0, 0, 1, 1] if en["kind"] == "bbox" else " ".join(en["tokens"])) for en in entries}
+        e = {"ev": "validate_cfg", "tests": [entries for _, entries in tests], "accepted": False, "exc": ""}
+        try:
+            QcVariableConfig(cfg)
+            e["accepted"] = True
+        except BaseException as ex:  # noqa: BLE001
+            e["exc"] = type(ex).__name__
+        self.add(e)
+
 
 def rand_expr(r, depth, atoms):
     if depth == 0 or r.random() < 0.25:
@@ -210,6 +224,39 @@ def check(ctx):
     for _ in range(ctx.pick(300, 3000)):
         tokens = [r.choice(ALLOWED) if r.random() < 0.85 else r.choice(BAD) for _ in range(r.randint(1, 9))]
         s.validate(tokens)
+    # whole configurations: 1..3 tests, the four limits written in any order, a per-test bbox at any position,
+    # zero, one or two specifications with a token that is not allowed -- in every slot
+    keys = ["suspect_min", "suspect_max", "fail_min", "fail_max"]
+    names = ["gross_range_test", "spike_test", "location_test"]
+
+    def cfg_case(ntests, bad_slots, bbox_pos):
+        tests = []
+        for ti in range(ntests):
+            order = keys[:]
+            r.shuffle(order)
+            entries = [{"kind": "spec", "key": k, "tokens": [r.choice(ALLOWED) for _ in range(r.randint(1, 4))]} for k in order]
+            for (bt, bk) in bad_slots:
+                if bt == ti:
+                    en = entries[bk]
+                    en["tokens"] = list(en["tokens"])
+                    en["tokens"][r.randrange(len(en["tokens"]))] = r.choice(BAD)
+            if bbox_pos.get(ti) is not None:
+                entries.insert(bbox_pos[ti], {"kind": "bbox", "key": "bbox", "tokens": []})
+            tests.append((names[ti], entries))
+        return tests
+    for ntests in (1, 2, 3):
+        slots = [(t, k) for t in range(ntests) for k in range(4)]
+        for bad in [()] + [(sl,) for sl in slots]:
+            for bt in range(ntests):
+                for bp in range(5):                       # bbox before / between / after the four limits of test bt
+                    s.validate_cfg(cfg_case(ntests, bad, {bt: bp}))
+            s.validate_cfg(cfg_case(ntests, bad, {}))
+    for _ in range(ctx.pick(200, 2000)):
+        ntests = r.randint(1, 3)
+        slots = [(t, k) for t in range(ntests) for k in range(4)]
+        bad = tuple(r.sample(slots, r.choice([0, 1, 1, 2])))
+        s.validate_cfg(cfg_case(ntests, bad, {t: r.randrange(5) for t in range(ntests) if r.random() < 0.6}))
+    ctx.cov["validator_configs"] = sum(1 for e in s.events if e["ev"] == "validate_cfg")
     # creator on synthetic time-constant climatologies
     import fx_creator
     fx_creator.drive(ctx, s)
